@@ -626,7 +626,7 @@ func encChoice(w *bitWriter, v reflect.Value, p Params, path string) error {
 		w.putBit(0) // 22.5: alternative of the root
 	}
 	w.constrainedWholeNumber(int64(present-1), 0, int64(nAlt-1)) // 22.6 (nothing for a single alternative, 22.4)
-	fp, err := ParseTag(t.Field(present).Tag.Get("aper"))
+	fp, err := ParseTag(FieldTag(t, present))
 	if err != nil {
 		return &SchemaError{err.Error()}
 	}
@@ -645,7 +645,7 @@ func encSequence(w *bitWriter, v reflect.Value, p Params, path string) error {
 		if t.Field(i).PkgPath != "" {
 			return serr("%s: unexported field %s", path, t.Field(i).Name)
 		}
-		fp, err := ParseTag(t.Field(i).Tag.Get("aper"))
+		fp, err := ParseTag(FieldTag(t, i))
 		if err != nil {
 			return &SchemaError{err.Error()}
 		}
@@ -722,7 +722,7 @@ func encOpenTypeField(w *bitWriter, v reflect.Value, p Params, path string) erro
 	if present < 1 || present >= t.NumField() {
 		return cerr(path, "open type %s: Present=%d selects no alternative", t.Name(), present)
 	}
-	fp, err := ParseTag(t.Field(present).Tag.Get("aper"))
+	fp, err := ParseTag(FieldTag(t, present))
 	if err != nil {
 		return &SchemaError{err.Error()}
 	}
